@@ -2,10 +2,12 @@ use crate::run::Suite;
 use std::path::Path;
 
 pub mod c21;
+pub mod c29;
 
 pub fn for_property(p: &str) -> Vec<Suite> {
     match p {
         "C21" => c21::suites(),
+        "C29" => c29::suites(),
         _ => vec![],
     }
 }
